@@ -29,10 +29,18 @@ def shards(tier):
     # small populations / long zero runs: where a fixed alternative becomes impossible
     sh += [{"name": f + "-smallN", "family": f, "max_N": 8, "examples": n} for f in FAMS[:5]]
     sh += [{"name": "sprt-fin-smallN", "family": "sprt-fin", "max_N": 8, "examples": n}]
+    # the estimators / bets as an audit uses them: on each assertion's own test object, under that assertion's own bound
+    sh += [{"name": "in-an-audit", "mode": "audit", "examples": n // 8}]
     return sh
 
 
 def strategy(shard):
+    if shard.get("mode") == "audit":
+        from strategies import audit as sa
+
+        return sa.scenario(n_contests=(1, 2), kinds=["plurality"], audit_types=("CARD_COMPARISON",), use_style=False, n_cards=(6, 40),
+                           favour_winner=True, with_phantoms=False, with_pools=False, p_missing=0.0).map(lambda s: {"mode": "audit", "scn": s})
+
     @st.composite
     def case(draw):
         cfg = draw(nonneg.config(shard["family"], max_N=shard.get("max_N", 60)))
@@ -52,8 +60,61 @@ def strategy(shard):
     return case()
 
 
+def _audit_case(case, out):
+    import numpy as np
+    from shangrla.core.Audit import Assertion
+    from strategies import audit as sa
+
+    out.cls("in-an-audit")
+    try:
+        audit, contests, cvrs, mvrs = sa.build(case["scn"])
+        Assertion.set_all_margins_from_cvrs(audit, contests, cvrs)
+    except Exception as e:  # noqa
+        out.lib_exception("setup", e)
+        return
+    tol = 1e-12
+    for cid, con in contests.items():
+        margins = [a.margin for a in con.assertions.values()]
+        if not all(v > 0 for v in margins):
+            out.skip("nonpositive-margin")
+            continue
+        if len(set(margins)) >= 2:
+            out.cls("assertions-with-different-bounds")
+            out.nontrivial = True
+        for key, a in con.assertions.items():
+            u_a = 2 / (2 - a.margin / a.assorter.upper_bound)      # the bound of THIS assertion's data (C06)
+            try:
+                x = np.array(a.mvrs_to_data(mvrs, cvrs, use_all=True)[0], dtype=float)
+                if len(x) == 0:
+                    continue
+                t = a.test
+                N, tt = (None if not np.isfinite(t.N) else int(t.N)), t.t
+                mu = mu_seq(N, tt, list(x))
+                if t.test.__func__.__name__ == "alpha_mart":
+                    seq, kind = as_list(t.estim(x), len(x)), "eta"
+                elif t.test.__func__.__name__ == "betting_mart":
+                    seq, kind = as_list(t.bet(x), len(x)), "lambda"
+                else:
+                    continue
+            except Exception as e:  # noqa
+                out.lib_exception("estimator-in-audit", e)
+                return
+            for j, (e, m) in enumerate(zip(seq, mu)):
+                if not (0 < m <= u_a) or math.isnan(e):
+                    continue
+                if kind == "eta":
+                    ok = -tol * u_a <= e <= u_a * (1 + tol)
+                else:
+                    ok = -tol <= e <= (1 / m) * (1 + tol)
+                if not out.expect(ok, f"{kind}-outside-its-range-under-the-assertion's-own-bound", lambda: (cid, key, j, e, u_a, m)):
+                    return
+
+
 def evaluate(case, out):
     import numpy as np
+
+    if case.get("mode") == "audit":
+        return _audit_case(case, out)
 
     cfg, x = case["cfg"], case["x"]
     u, t, N = cfg["u"], cfg["t"], cfg["N"]
